@@ -148,3 +148,9 @@ package ledger
 //@   modifies qWhere, qWhereCount, qOrderExpr
 //@   ensures (property != "address" && property != "account" && property != "first_usage" && property != "insertion_date" && property != "updated_at" && (reMatch(balanceRegex, property) || property == "balance") && opts.PIT != nil && !tzero(deref(opts.PIT)) && h.store.ledger.Features["MOVES_HISTORY"] != "ON") ==> err != nil && isErr(err, ErrMissingFeature)
 //@   ensures (property != "address" && property != "account" && property != "first_usage" && property != "insertion_date" && property != "updated_at" && (reMatch(balanceRegex, property) || property == "balance") && opts.PIT != nil && !tzero(deref(opts.PIT)) && h.store.ledger.Features["MOVES_HISTORY_POST_COMMIT_EFFECTIVE_VOLUMES"] != "SYNC") ==> err != nil && isErr(err, ErrMissingFeature)
+
+//@ func (h transactionsResourceHandler) ResolveFilter(q common.ResourceQuery[any], operator string, property string, value any) (s string, args []any, err error)
+//@   property C38
+//@   requires property == "reverted" ==> is(value, bool)
+//@   requires (property == "account" || property == "source" || property == "destination") && operator != "$in" ==> is(value, string)
+//@   note the requires are what queries.TypeBoolean / TypeString.ValidateValue establish for these properties (entity schema TransactionSchema); the walk of the filter tree that connects them (go-libs query.Builder) is not under contract
